@@ -44,13 +44,23 @@ static void run_delay(Json& js, vh::Rng& rng, long budget, bool every_shift) {
                 }
                 int fd = 0;
                 double tau = 0;
+                // every other case goes through the multi-channel overload (second channel: the opposite shift)
+                static long alt = 0;
+                const bool multi = (++alt % 2) == 0;
+                double dev2 = 0;
                 const char* o = vh::outcome([&] {
                     fd = finddelay(x, y);
-                    tau = gccphat(y, x, fs).tau;
+                    if (multi) {
+                        const auto r = gccphat(std::vector<arr_real>{y, delayseq(x, -d)}, x, fs);
+                        tau = r.tau[0];
+                        dev2 = r.tau[1] * fs + d;
+                    } else {
+                        tau = gccphat(y, x, fs).tau;
+                    }
                 });
-                const double dev = tau * fs - d;
+                const double dev = std::max(std::fabs(tau * fs - d), std::fabs(dev2));
                 js.begin("Delay").boolean("cplx", false).num("len", len).num("d", d).num("fs", fs).boolean("noisy", noisy).str("o", o)
-                  .boolean("shift_ok", shift_ok).num("fd", fd).num("gcc_dev_milli", (long)std::min(1e9, std::ceil(std::fabs(dev) * 1000))).end();
+                  .boolean("shift_ok", shift_ok).num("fd", fd).num("gcc_dev_milli", (long)std::min(1e9, std::ceil(dev * 1000))).end();
             } else {
                 arr_cmplx y(len);
                 for (int i = 0; i < len; ++i) {
@@ -208,6 +218,34 @@ static void run_detector(Json& js, vh::Rng& rng, long budget, bool all_offsets) 
             js.begin("Detect").boolean("pn", pn).num("Lp", Lp).num("F", F).num("thr_milli", (long)(thr * 1000)).boolean("present", present)
               .num("end", e).num("nframes", nframes).num("det_frame", det_frame).num("det_off", det_off).num("plen", plen)
               .num("match", match).num("score_ppm", (long)std::llround(score * 1e6)).num("nthrow", nthrow).end();
+        }
+        // no preamble at all, but a loud burst followed by digital silence (exact zeros) through the same detector: the
+        // normalised metric must not fire on 0/0-like residues of the running power
+        {
+            const int nframes = 5;
+            arr_cmplx in(nframes * F);
+            const int blen = (int)rng.range(F / 4, 2 * F);
+            const double bamp = std::pow(10.0, 3 * rng.unif());
+            for (int i = 0; i < in.size(); ++i) {
+                in[i] = i < blen ? cmplx_t(bamp * rng.gauss(), bamp * rng.gauss()) : cmplx_t(0, 0);
+            }
+            PreambleDetector det(href, thr);
+            long det_frame = -1, det_off = -1, plen = 0, nthrow = 0;
+            double score = 0;
+            for (int f = 0; f < nframes && det_frame < 0; ++f) {
+                std::optional<PreambleDetector::Result> r;
+                try {
+                    r = det.process(arr_cmplx(in.slice(f * F, (f + 1) * F)));
+                } catch (const std::exception&) {
+                    ++nthrow;
+                }
+                if (r.has_value() && f * F + r->offset >= blen + Lp) {   // inside the burst itself the statement is silent
+                    det_frame = f, det_off = r->offset, plen = r->preamble.size(), score = r->score;
+                }
+            }
+            js.begin("Detect").boolean("pn", pn).num("Lp", Lp).num("F", F).num("thr_milli", (long)(thr * 1000)).boolean("present", false)
+              .num("end", 0).num("nframes", nframes).num("det_frame", det_frame).num("det_off", det_off).num("plen", plen)
+              .num("match", -2).num("score_ppm", score == score ? (long)std::llround(std::min(1e3, std::fabs(score)) * 1e6) : -1).num("nthrow", nthrow).end();
         }
         // frames that are not a multiple of frame_len are rejected
         {
